@@ -412,15 +412,13 @@ def run(db: DB, rep: Report) -> None:
               "the order of the (coord, payload, elem) path tuple changed; 'i == 1' no longer selects payload")
 
     # ---- T7 --------------------------------------------------------------------
-    rep.rule("T7", "one rule for choosing the leader", 3)
+    rep.rule("T7", "one rule for choosing the leader", 4)
     leader_loops = []
     for f in (db.func("teaal.trans.equation.Equation.__make_input_iter_expr"), bft):
         for n in walk_no_nested(f.node):
             if isinstance(n, ast.For) and "get_bindings" in paths.called_names([n.iter]) and \
                     any(isinstance(c, ast.Constant) and c.value == "leader" for c in ast.walk(n)):
                 leader_loops.append((f, n))
-    if len(leader_loops) < 3:
-        raise AnalysisError("fewer than 3 leader-selection loops found (%d)" % len(leader_loops))
     forms = [_norm_loop(n) for f, n in leader_loops]
     want_form = "for b in <R>.get_bindings()[einsum]: if b[rank==rank]: take b[leader]; break"
     for (f, n), form in zip(leader_loops, forms):
@@ -429,6 +427,62 @@ def run(db: DB, rep: Report) -> None:
                   "the leader of a leader-follower intersection is looked up differently here (%s) than "
                   "the first-match rule (%s); the consumed trace would belong to a different tensor than "
                   "the one that leads the iteration" % (form, want_form))
+
+    # the trace a leader-follower intersector consumes is the leader's
+    lf_ifs = [n for n in walk_no_nested(bft.node) if isinstance(n, ast.If) and isinstance(n.test, ast.Call)
+              and norm(n.test.func) == "isinstance" and norm(n.test.args[1]) == "LeaderFollowerComponent"
+              and any(isinstance(x, ast.Call) and isinstance(x.func, ast.Attribute) and x.func.attr == "append"
+                      and norm(x.args[0]).startswith("self.fiber_traces[") for s_ in n.body for x in ast.walk(s_))]
+    ok = False
+    why = "branch not found"
+    if len(lf_ifs) == 1:
+        apps_ = [x for s_ in lf_ifs[0].body for x in ast.walk(s_) if isinstance(x, ast.Call) and
+                 isinstance(x.func, ast.Attribute) and x.func.attr == "append" and
+                 norm(x.args[0]).startswith("self.fiber_traces[")]
+        why = ""
+        ok = len(apps_) == 1
+        if ok:
+            a = apps_[0].args[0]          # self.fiber_traces[rank][X][True]
+            key = a.value.slice if isinstance(a, ast.Subscript) and isinstance(a.value, ast.Subscript) else None
+            from_leader = False
+            if isinstance(key, ast.Name):
+                for st, v in paths.defs_of(bft.node, key.id):
+                    if isinstance(v, ast.Subscript) and isinstance(v.slice, ast.Constant) and v.slice.value == "leader":
+                        from_leader = True
+            ok = from_leader
+            why = "the trace is looked up under %s" % (norm(key) if key is not None else "?")
+    rep.check("T7", ok, db.loc(lf_ifs[0]) if lf_ifs else db.loc(bft.node), bft.short, "consumed-trace-is-leaders",
+              "a leader-follower intersector consumes the trace registered for binding['leader']",
+              "the trace a leader-follower intersector consumes is not the one registered for the bound "
+              "leader (%s): the consumed trace differs from the consumable one when the leader is not the "
+              "first factor" % why)
+
+    # ---- T9: the sequencer's consumed rank is the registered rank ------------------
+    rep.rule("T9", "sequencer: registered rank == consumed rank (the binding's rank as written)", 2)
+    for fname in ("__build_trace_ranks", "__build_sequencers"):
+        g = C.methods[fname]
+        loops_ = [n for n in walk_no_nested(g.node) if isinstance(n, ast.For) and isinstance(n.iter, ast.Call)
+                  and isinstance(n.iter.func, ast.Attribute) and n.iter.func.attr == "get_ranks"
+                  and isinstance(n.target, ast.Name)]
+        ok = False
+        used = "?"
+        if len(loops_) == 1:
+            rv = loops_[0].target.id
+            if fname == "__build_trace_ranks":
+                tups = [x for x in ast.walk(loops_[0]) if isinstance(x, ast.Tuple) and len(x.elts) == 5]
+                ok = bool(tups) and all(isinstance(t.elts[1], ast.Name) and t.elts[1].id == rv for t in tups)
+                used = norm(tups[0].elts[1]) if tups else "?"
+            else:
+                cats = [x for x in ast.walk(loops_[0]) if isinstance(x, ast.BinOp) and isinstance(x.op, ast.Add)
+                        and isinstance(x.right, ast.Constant) and x.right.value == "-iter.csv"]
+                ok = bool(cats) and all(isinstance(c.left, ast.BinOp) and isinstance(c.left.right, ast.Name)
+                                        and c.left.right.id == rv for c in cats)
+                used = norm(cats[0].left.right) if cats and isinstance(cats[0].left, ast.BinOp) else "?"
+        rep.check("T9", ok, db.loc(loops_[0]) if loops_ else db.loc(g.node), g.short, "sequencer-rank@" + fname,
+                  "%s uses the sequencer's rank as bound (%s)" % (fname, used),
+                  "%s plugs %s into the trace name instead of the rank exactly as the sequencer binding "
+                  "gives it; registration and consumption would name different ranks for a partitioned "
+                  "rank" % (g.short, used))
 
     # ---- T8 --------------------------------------------------------------------
     rep.rule("T8", "expanded bindings are appended to both views", 2)
@@ -502,6 +556,13 @@ def mutants(db: DB):
         M("leader lookup takes the last match", met,
           "                            for binding in coiter.get_bindings()[einsum]:\n                                if binding[\"rank\"] == rank:\n                                    leader = binding[\"leader\"]\n                                    break",
           "                            for binding in coiter.get_bindings()[einsum]:\n                                if binding[\"rank\"] == rank:\n                                    leader = binding[\"leader\"]", "T7"),
+        M("consumed trace looked up under the first factor", met,
+          "                            traces.append(\n                                self.fiber_traces[rank][leader][True])",
+          "                            traces.append(\n                                self.fiber_traces[rank][term[0].root_name()][True])", "T7"),
+        M("sequencer file named by the final rank id", col,
+          "                trace = self.metrics.get_hardware().get_prefix(einsum) + \\\n                    \"-\" + rank + \"-iter.csv\"",
+          "                frank = self.program.get_partitioning().get_final_rank_id([rank], rank)\n                trace = self.metrics.get_hardware().get_prefix(einsum) + \\\n                    \"-\" + frank + \"-iter.csv\"",
+          "T9"),
         M("expanded binding missing from the dump's view", cmp_,
           "                    self.tensor_bindings[einsum][tensor].append(new_binding)\n                    self.bindings[einsum].append(new_binding)",
           "                    self.tensor_bindings[einsum][tensor].append(new_binding)", "T8"),
